@@ -63,6 +63,8 @@ def _models(name):
         for extra in ([], [("MissingVal", -9999)], [("DataType", "Integer")]):
             yield "read", [("READ", [("InFileName", "input.csv"), ("InFieldName", "A")] + extra, None)], 0
             yield "read-renamed", [("READ", [("InFileName", "input.csv"), ("InFieldName", "A")] + extra, "Alpha")], 0
+            # a column whose header is a number (a year): as InFieldName it is a NUMBER token; it can only name the result through NewFieldName
+            yield "read-numeric-field-renamed", [("READ", [("InFileName", "input.csv"), ("InFieldName", 2050)] + extra, "Y2050")], 0
         return
     fz = SIG.input_fuzz(target)
     ar = D.arity(target)
@@ -116,8 +118,8 @@ def _variants(desc, cmds, under_test):
             def ref_of(nm, a):
                 d = dict(a)
                 res = d.get("NewFieldName") or d.get("InFieldName")
-                if isinstance(res, list):
-                    res = None
+                if not isinstance(res, str):
+                    res = None  # a list or a number names nothing
                 return (res, SIG.EEMS2[nm], [(k, v) for k, v in a if k not in ("NewFieldName", "OutFileName")])
 
             ref = [ref_of(nm, a) for nm, a in v2]
@@ -211,7 +213,7 @@ def run(case):
     _, name, tier = case
     work = snapshot.scratch_dir("c16_")
     with open(os.path.join(work, "input.csv"), "w") as f:
-        f.write("A,B\n10,5\n8,-9999\n7,3\n5,10\n2,8\n")
+        f.write("A,B,2050\n10,5,1.5\n8,-9999,2\n7,3,-9999\n5,10,4\n2,8,0.25\n")
     viols, outcomes = [], {}
     evals = judged = unspec = 0
     sample = None
